@@ -275,3 +275,102 @@ func HarnessC17Escapejs() {
 	}
 	verifAssert(c17Tpl("escapejs", x) == out, "template syntax and ApplyFilter disagree (escapejs)")
 }
+
+// ---- striptags / removetags (decided through the engine's model of Go's regexp matching) ----
+func c17TagText(n int) string {
+	// bytes drawn from the characters that matter for tag matching, plus one free symbolic byte class
+	b := make([]byte, n)
+	for i := range b {
+		switch verifChoice(6) {
+		case 0:
+			b[i] = '<'
+		case 1:
+			b[i] = '>'
+		case 2:
+			b[i] = '/'
+		case 3:
+			b[i] = 'b'
+		case 4:
+			b[i] = '\n'
+		default:
+			c := verifByte() // any other 7-bit byte
+			verifAssume(c < 0x80)
+			verifAssume(c != '<')
+			verifAssume(c != '>')
+			b[i] = c
+		}
+	}
+	return string(b)
+}
+
+func HarnessC17Striptags() {
+	x := c17TagText(verifParam("n", 3))
+	verifObserve("x", x)
+	out := c17Apply("striptags", x)
+	verifObserve("out", out)
+	// no complete tag may be left: no '<' that is followed by a '>' later on
+	for i := 0; i < len(out); i++ {
+		if out[i] == '<' {
+			for j := i + 1; j < len(out); j++ {
+				verifAssert(out[j] != '>', "striptags left a complete tag in its output")
+			}
+		}
+	}
+	// nothing but tags (and surrounding white space) is removed: text without '<' is kept up to trimming
+	if !hasByte(x, '<') {
+		verifAssert(len(out) <= len(x) && indexOf(x, out) >= 0, "striptags altered text that contains no tag")
+	}
+}
+
+func c17TagAt(s string, i int) int { // length of a <b>, </b>, <b/>, </b/> form starting at i, or 0
+	j := i
+	if j >= len(s) || s[j] != '<' {
+		return 0
+	}
+	j++
+	if j < len(s) && s[j] == '/' {
+		j++
+	}
+	if j >= len(s) || s[j] != 'b' {
+		return 0
+	}
+	j++
+	if j < len(s) && s[j] == '/' {
+		j++
+	}
+	if j >= len(s) || s[j] != '>' {
+		return 0
+	}
+	return j + 1 - i
+}
+
+func c17TrimSpace(s string) string {
+	isSp := func(c byte) bool { return c == ' ' || c >= 9 && c <= 13 }
+	i, j := 0, len(s)
+	for i < j && isSp(s[i]) {
+		i++
+	}
+	for j > i && isSp(s[j-1]) {
+		j--
+	}
+	return s[i:j]
+}
+
+func HarnessC17Removetags() {
+	x := c17TagText(verifParam("n", 3))
+	verifObserve("x", x)
+	v, err := ApplyFilter("removetags", AsValue(x), AsValue("b"))
+	verifAssert(err == nil, "removetags must not fail for a valid tag name")
+	out := v.String()
+	verifObserve("out", out)
+	var want []byte
+	for i := 0; i < len(x); {
+		if n := c17TagAt(x, i); n > 0 {
+			i += n
+			continue
+		}
+		want = append(want, x[i])
+		i++
+	}
+	verifAssert(out == c17TrimSpace(string(want)), "removetags must remove exactly the named tags (<b>, </b>, <b/>, </b/>) and nothing else")
+}
